@@ -44,9 +44,28 @@ def load_cmd(db, paths, tz):
                   '-z', paths['water_level'], '--timezone', tz])
 
 
-def run_load(case, d, fmt_time=D.fmt_utc):
+_ZONES = {}
+
+
+def zone_of(name):
+    """The zone reader of the C11 check (TZif tables as pytz reads them, and the stdlib reading of the same file)."""
+    if name not in _ZONES:
+        from harness.props import c11          # (c11 imports this module: import late)
+        _ZONES[name] = c11.Zone(name)
+    return _ZONES[name]
+
+
+def fmt_for(tz):
+    """How epochs are written into the files: UTC text, or the reading of the instant on the clock of the declared
+    zone (cases in a daylight-saving zone: the generator has made sure that every instant reads back uniquely)."""
+    return D.fmt_utc if tz == 'UTC' else zone_of(tz).render
+
+
+def run_load(case, d, fmt_time=None):
     """Write the files, prepare the database as `pre` asks, run `spowtd load`.
     Returns dict(exc, tables, before)."""
+    if fmt_time is None:
+        fmt_time = fmt_for(case.get('tz', 'UTC'))
     ds = D.Dataset([tuple(r) for r in case['rain']], [tuple(r) for r in case['et']],
                    [tuple(r) for r in case['wl']], case.get('tz', 'UTC'), fmt_time)
     paths = ds.write(d)
@@ -377,14 +396,31 @@ def oracle(case, res, out):
             diff = [(a, b) for a, b in zip(got, want) if a != b][:2]
             bad('%s rows differ from the source values on the grid steps: %d rows for %d steps, first '
                 'differences (stored, source) %s' % (name, len(got), len(want), diff))
+    # the staged series are the source rows
+    for name, table, src in (('rainfall', 'rainfall_intensity_staging', rain),
+                             ('evapotranspiration', 'evapotranspiration_staging', et),
+                             ('water level', 'water_level_staging', wl)):
+        got, want = sorted(tb[table]), sorted(src.items())
+        if got != want:
+            gd, wd = dict(got), dict(want)
+            bad('the staged %s series is not the source series: %d rows stored for %d source rows; source rows '
+                'not stored (first 3) %s, stored rows that are not source rows (first 3) %s'
+                % (name, len(got), len(want), [r for r in want if gd.get(r[0]) != r[1]][:3],
+                   [r for r in got if wd.get(r[0]) != r[1]][:3]))
     # water level
     gaps = source_gaps(wl_t)
+    gap_starts = [a for a, _ in gaps]
+
+    def gap_around(g):
+        """The gap (a, b) with a < g < b, if any (gaps are disjoint and sorted)."""
+        j = bisect.bisect_left(gap_starts, g) - 1
+        return gaps[j] if j >= 0 and g < gaps[j][1] else None
     level = dict(tb['water_level'])
     for g in grid:
-        in_gap = any(a < g < b for a, b in gaps)
+        in_gap = gap_around(g) is not None
         if in_gap and g in level:
             bad('a water level is stored at %d, strictly inside the gap %s of the source record'
-                % (g, [p for p in gaps if p[0] < g < p[1]][0]))
+                % (g, gap_around(g)))
         if in_gap and labels[g] is not None:
             bad('grid instant %d inside a gap of the source record carries label %s' % (g, labels[g]))
         if not in_gap and labels[g] is None:
@@ -412,6 +448,25 @@ def oracle(case, res, out):
                 % (g, v, ta, wl[ta], tb_, wl[tb_], float(exact)))
     # labels: equal within a stretch, distinct across gaps
     lab = [(g, labels[g]) for g in grid if labels[g] is not None]
+    if len(lab) > 400:
+        # the same two requirements without the quadratic loop: two labelled instants (none of them strictly
+        # inside a gap, reported above otherwise) are separated by a gap iff different numbers of gaps end at or
+        # before them; so stretch number -> label must be a function, and an injective one
+        gap_ends = [b for _, b in gaps]
+        by_stretch, by_label = {}, {}
+        for g, l in lab:
+            if gap_around(g) is not None:
+                continue
+            k = bisect.bisect_right(gap_ends, g)
+            g0, l0 = by_stretch.setdefault(k, (g, l))
+            if l0 != l:
+                bad('grid instants %d and %d are not separated by a gap but carry labels %s and %s' % (g0, g, l0, l))
+                break
+            g1, k1 = by_label.setdefault(l, (g, k))
+            if k1 != k:
+                bad('grid instants %d and %d lie on both sides of a gap but share label %s' % (g1, g, l))
+                break
+        lab = []
     for i, (g1, l1) in enumerate(lab):
         for g2, l2 in lab[i + 1:]:
             separated = any(g1 <= a and b <= g2 for a, b in gaps)
@@ -439,6 +494,9 @@ def oracle_refused(case, res, out):
 
 
 def public(case):
+    if case.get('regen'):
+        # a large generated input: the replay file carries the recipe, not a hundred thousand rows
+        return dict(cls=case.get('cls'), regen=case['regen'])
     return {k: case[k] for k in ('cls', 'tz', 'pre', 'rain', 'et', 'wl') if k in case}
 
 
@@ -448,9 +506,12 @@ def digest(case):
 
 # ------------------------------------------------------------- the check
 
-def check_cases(cases, out, label, prop=PROP):
+def check_cases(cases, out, label, prop=PROP, coq=True):
+    """coq=False: the large-input stage, judged by the oracles only."""
     strs, kept = [], []
     for case in cases:
+        if case.get('regen') and 'rain' not in case:
+            case = regen_case(case['regen'])
         d = D.scratch(prop, 'cl_db')
         res = run_load(case, d)
         out.evaluations += 1
@@ -492,9 +553,18 @@ def check_cases(cases, out, label, prop=PROP):
                     out.nontriv(digest(case))
         else:
             out.count('outcome:refused:%s' % C.err_of(res['exc']))
+            if not bad:
+                out.violation('oracle', 'load refused (%s: %s) a well-formed input: uniform rainfall steps within '
+                              'the span of the water-level record, ET at every grid instant and the closing one, no '
+                              'duplicate timestamp, an empty data file [class %s]'
+                              % (type(res['exc']).__name__, str(res['exc'])[:200], case.get('cls')), case=pub)
             oracle_refused(case, res, out)
+        if not coq or case.get('regen'):
+            continue
         strs.append(case_str(case, res))
         kept.append((case, res))
+    if not strs:
+        return
     bad_idx, errs, _ = C.run_case_shards(prop, label, PRE, CASE_TYPE, CHECK_FN, strs, shard=25)
     out.corr_errors += errs
     for i in bad_idx:
@@ -521,6 +591,100 @@ def extra_streams(seed, n_et, n_edge, prop=PROP):
     return out
 
 
+# ------------------------------------------------------------- records over a change of the zone's UTC offset
+
+DST_ZONES = ['Europe/Berlin', 'America/New_York', 'Australia/Sydney', 'America/St_Johns', 'Australia/Lord_Howe',
+             'America/Sao_Paulo', 'Europe/Dublin', 'Pacific/Apia', 'Asia/Tehran', 'Africa/Casablanca']
+
+
+def dst_profile(case):
+    """Measured on the files: the UTC offset in force at the FIRST ROW of each file (in file order) and at its
+    earliest row, and over the whole file."""
+    z = zone_of(case['tz'])
+    tags = []
+    first = {k: z.info_at(case[k][0][0])[0] for k in ('rain', 'et', 'wl')}
+    early = {k: z.info_at(min(t for t, _ in case[k]))[0] for k in ('rain', 'et', 'wl')}
+    if len(set(first.values())) > 1:
+        tags.append('first_rows_of_the_files_have_different_offsets')
+    if len(set(early.values())) > 1:
+        tags.append('files_begin_on_different_sides_of_a_transition')
+        tags.append('begins_alone_on_its_side:' + '+'.join(
+            k for k in ('rain', 'et', 'wl') if list(early.values()).count(early[k]) == 1))
+    for k in ('rain', 'et', 'wl'):
+        if len({z.info_at(t)[0] for t, _ in case[k]}) > 1:
+            tags.append('%s_file_spans_a_transition' % k)
+    return tags
+
+
+def dst_stream(seed, n, prop=PROP):
+    """Well-formed triples written on the clock of a daylight-saving zone, uniform in UTC, the three files
+    beginning on different sides of a change of the zone's offset (own random source)."""
+    from harness.props import c11
+    rng = C.rng_for(seed, prop, 'across_transition')
+    out = []
+    tries = 0
+    while len(out) < n and tries < 60 * n:
+        tries += 1
+        name = DST_ZONES[len(out) % len(DST_ZONES)]
+        z = zone_of(name)
+        times = [t for t in z.times if c11.LO_LIM < t < c11.HI_LIM]
+        if not times:
+            continue
+        c = G.gen_across_transition(rng, rng.choice(times))
+        c['tz'] = name
+        if malformations(c) or not all(c11.representable(z, t) for k in ('rain', 'et', 'wl') for t, _ in c[k]):
+            continue
+        out.append(c)
+    return out
+
+
+# ------------------------------------------------------------- large inputs (oracles only)
+
+def regen_case(r):
+    """A large case from its recipe (each has its own random source, so one case can be rebuilt alone)."""
+    rng = C.rng_for(r['seed'], r.get('prop', PROP), 'large', r['stream'], r['k'])
+    if r['stream'] == 'et_hole':
+        c = G.gen_et_hole_large(rng, r['idx'])
+    else:
+        c = G.gen_long_record(rng, r['which'], r['n_rows'], r.get('holes', 0))
+    c['regen'] = r
+    return c
+
+
+def large_recipes(seed, tier, prop=PROP):
+    rng = C.rng_for(seed, prop, 'large_plan')
+    rec = []
+    idxs = G.round_indices() if tier == 'quick' else \
+        G.round_indices(chunks=(1000, 1024, 500, 512, 999, 2000), multiples=(1, 2, 3, 4), extra=(4095, 4096, 4097, 8191, 8192, 9999, 10000))
+    for k, idx in enumerate(idxs):
+        rec.append(dict(stream='et_hole', seed=seed, prop=prop, k=k, idx=idx))
+    # long files: past 65536 rows (and so past every smaller chunk size), never a multiple of a chunk size
+    sizes = [65536 + rng.randrange(300, 9000)]
+    if tier != 'quick':
+        sizes += [131072 + rng.randrange(300, 9000), 65536 + rng.randrange(2, 300), 32768 + rng.randrange(2, 3000)]
+    for k, n_rows in enumerate(sizes):
+        while any(n_rows % c == 0 for c in G.CHUNKS):
+            n_rows += 1
+        rec.append(dict(stream='long', seed=seed, prop=prop, k=k, which='wl', n_rows=n_rows, holes=(k + 2) % 3))
+    if tier != 'quick':
+        rec.append(dict(stream='long', seed=seed, prop=prop, k=100, which='rain',
+                        n_rows=65536 + rng.randrange(300, 5000), holes=1))
+    return rec
+
+
+def large_profile(case, out, tag='large:'):
+    for key in ('rain', 'et', 'wl'):
+        n = len(case[key])
+        past = [c for c in G.CHUNKS if n > c]
+        out.count('%s%s_rows_past:%s' % (tag, key, max(past) if past else '<1000'))
+    if case.get('hole_index') is not None:
+        i = case['hole_index']
+        near = [(c, i % c if i % c <= c // 2 else i % c - c) for c in (1000, 1024, 4096) if min(i % c, c - i % c) <= 1]
+        for c, d in near:
+            out.count('%sthe_only_ET_hole_sits_at_grid_index=multiple_of_%d%+d' % (tag, c, d))
+        out.count('%shole_index_%s_index_in_the_file' % (tag, '=' if not case.get('lead') else '<>'))
+
+
 def run(ctx, out):
     C.import_spowtd()
     seed, tier = ctx['seed'], ctx['tier']
@@ -528,7 +692,16 @@ def run(ctx, out):
     n = 200 if tier == 'quick' else 2000
     cases, quota, short = generate(rng, n)
     cases += extra_streams(seed, 36 if tier == 'quick' else 300, 24 if tier == 'quick' else 200)
+    dst = dst_stream(seed, 30 if tier == 'quick' else 300)
+    for c in dst:
+        for tag in dst_profile(c):
+            out.count('dst:' + tag)
+    cases += dst
     check_cases(cases, out, 'cl')
+    for r in large_recipes(seed, tier):
+        c = regen_case(r)
+        large_profile(c, out)
+        check_cases([c], out, 'large', coq=False)
     out.notes.append('generator quota per measured feature: %d; shortfalls: %s' % (quota, short or 'none'))
     out.rule = ('CL: generated triples of input files through the real `spowtd load`; every table the load '
                 'fills is compared with load_model inside Coq. Non-trivial: an accepted load with at least one '
@@ -537,7 +710,13 @@ def run(ctx, out):
                 'the generated files, not assumed from the generator class. Two further malformed streams (own '
                 'random sources): ET records starting late / ending early / with holes / coarser / off the grid, '
                 'and a non-uniform rainfall step closed exactly at the last (first) water-level timestamp with '
-                'near misses of one second (profile:* counts, measured on the files).')
+                'near misses of one second (profile:* counts, measured on the files). A stream of well-formed triples '
+                'written on the clock of a daylight-saving zone, uniform in UTC, whose three files begin on '
+                'different sides of a change of the offset (dst:* counts, measured). LARGE-INPUT STAGE, judged by '
+                'the oracle ONLY (not sent to Coq: reading the literals dominates): a water-level file of more than '
+                '65536 rows logged finer than the rainfall step, with genuine gaps across the chunk boundary, and '
+                'records of 1000-4100 grid steps whose only ET hole sits on / one beside a multiple of 1000, 1024, '
+                '4096 (large:* counts); replay files of these carry the recipe, not the rows.')
     out.samples = [public(c) for c in cases[:2]]
     out.assumptions += [
         'reading of decimal text into binary64 (Python float() = SQLite for <= 15 significant digits) is an '
@@ -549,4 +728,5 @@ def run(ctx, out):
 
 def replay(case, out):
     C.import_spowtd()
-    check_cases([case['case']], out, 'replay')
+    c = case['case']
+    check_cases([c], out, 'replay', coq=not c.get('regen'))
